@@ -55,6 +55,10 @@ def gen(rng, n, tier):
                         "resp_sent": rng.randint(0, total), "interim": rng.choice([None, None, 100, 102, 103]),
                         "fault": rng.choice(["close", "garbage", "connect_err", "limit", "none", "close_before_head", "bad_head"]),
                         "markup": rng.choice(["<script>x</script>", "<b>&\"'", "plain"])})
+            if rng.chance(0.3):
+                # a client still uploading a (streamed, chunked) body when the early response has been relayed, then a malformed chunk
+                out[-1].update({"req_fault": rng.choice(["bad_chunk", "bad_chunk", "close"]), "early": rng.choice(["partial", "complete", "none"]),
+                                "method": "POST", "stream_req": rng.chance(0.8)})
             continue
         r = rng.random()
         msg = "".join(rng.choice(TOK) for _ in range(rng.randint(0, 7)))
@@ -145,6 +149,24 @@ def run_xchg(case):
     head = (f"{case['method']} http://example.com/{case['markup'].replace(' ', '')} HTTP/1.1\r\nHost: example.com\r\n"
             + (f"Content-Length: {nb}\r\n" if case["method"] != "GET" else "")
             + ("Expect: 100-continue\r\n" if case["expect"] else "") + "\r\n").encode()
+    if case.get("req_fault"):
+        head = (f"POST http://example.com/{case['markup'].replace(' ', '')} HTTP/1.1\r\nHost: example.com\r\n"
+                "Transfer-Encoding: chunked\r\n" + ("Expect: 100-continue\r\n" if case["expect"] else "") + "\r\n").encode()
+        d.data(0, head)
+        if d.crashed is None:
+            d.data(0, b"3\r\nabc\r\n")
+        if d.crashed is None and len(d.conns) > 1 and any(t[0] == "open" for t in d.trace) and not err:
+            if case["early"] == "partial":
+                d.data(1, b"HTTP/1.1 200 OK\r\nContent-Length: 400\r\n\r\n" + b"r" * 10)
+            elif case["early"] == "complete":
+                d.data(1, b"HTTP/1.1 413 Too Large\r\nContent-Length: 5\r\n\r\nlarge")
+        if d.crashed is None:
+            if case["req_fault"] == "bad_chunk":
+                d.data(0, b"zz<" + case["markup"].encode() + b">\r\n")
+            else:
+                d.close(0)
+        return {"to_client": d.sent(0).hex(), "crashed": d.crashed, "hooks": d.hook_names(), "method": "POST",
+                "client_closed": any(t[0] == "close" and t[1] == 0 for t in d.trace)}
     d.data(0, head)
     if nb and d.crashed is None:
         d.data(0, b"b" * nb)
@@ -306,6 +328,9 @@ def oracle(case, obs):
         raw = bytes.fromhex(obs["to_client"])
         v = []
         msgs = read_responses(raw, obs["method"])
+        finals = [m for m in msgs if m[0] is None or not (100 <= m[0] < 200)]
+        if len(finals) > 1:
+            v.append({"key": "extra-response", "what": f"one request was sent but the client received {len(finals)} final responses (statuses {[m[0] for m in finals]}): an error response was written after a response had already been sent"})
         for code, h, body, complete in msgs:
             is_page = body.lstrip().startswith(b"<html>") and b"</html>" in body
             if code is None:
@@ -352,7 +377,8 @@ def nontrivial(case, obs):
 def classify(case, obs):
     if case["k"] == "xchg":
         raw = bytes.fromhex(obs["to_client"])
-        return ["xchg", "xchg-page" if b"<html>" in raw else "xchg-nopage", "xchg-fault-" + case["fault"]]
+        return ["xchg", "xchg-page" if b"<html>" in raw else "xchg-nopage",
+                ("xchg-reqfault-" + case["req_fault"] + "-early-" + case["early"]) if case.get("req_fault") else ("xchg-fault-" + case["fault"])]
     if case["k"] == "e2e":
         raw = bytes.fromhex(obs["to_client"])
         return ["e2e", "e2e-page" if b"<html>" in raw else ("e2e-other" if raw else "e2e-silent")]
